@@ -385,7 +385,12 @@ theorem visual_chars_stores (max : Nat) (hmax : 0 < max) (s : VSt) (a c : Nat) (
   have hsc : ∀ v : Int, (setCursor (setCursor s.buf a) v).text = s.buf.text := fun v => rfl
   simp only [vstep, Option.isSome_none, Bool.false_eq_true, if_false]
   refine ⟨?_, ?_, ?_, ?_⟩
-  · cases act <;> cases reg <;> simp only [hcut, hcutx, fixNav_text, hsc, reduceCtorEq, if_false, if_true]
+  · cases reg with
+    | none => cases act <;> simp only [hcut, hcutx, fixNav_text, hsc, reduceCtorEq, if_false, if_true]
+    | some r =>
+      obtain ⟨hr, _⟩ := hreg r rfl
+      cases act <;>
+        simp only [hcut, hcutx, fixNav_text, hsc, reduceCtorEq, if_false, if_true, hr, Bool.true_eq_false, and_false]
   · simp only [visText]
     exact (cut_reinsert _ _ _ hlohi hlo).symm
   · intro hX
@@ -404,14 +409,18 @@ theorem visual_chars_stores (max : Nat) (hmax : 0 < max) (s : VSt) (a c : Nat) (
       · exact absurd rfl hx
       · simp only [hcut, this, hr, and_self, if_true]
         exact ⟨regGet_regSet_same _ _ _, trivial, fun r' h => regGet_regSet_other _ _ _ _ h⟩
-      · simp only [hcut, this, hr, and_self, if_true]
+      · simp only [hcut, this, hr, and_self, if_true, Bool.true_eq_false, and_false, if_false]
         exact ⟨regGet_regSet_same _ _ _, trivial, fun r' h => regGet_regSet_other _ _ _ _ h⟩
   · intro hX hx
     have := hst0 hX
     cases act
     · exact absurd rfl hx
-    all_goals
-      cases reg <;> simp [hcut, this]
+    · cases reg <;> simp [hcut, this]
+    · cases reg with
+      | none => simp [hcut, this]
+      | some r =>
+        obtain ⟨hr, _⟩ := hreg r rfl
+        simp [hcut, this, hr]
 
 def exV3 : VSt := { buf := { text := "hello world".toList, cur := 0 }, ring := [], regs := [] }
 example : visText exV3.buf.text 7 2 = "llo wo".toList ∧
